@@ -95,6 +95,31 @@ class ExprMixin:
                 if d < 0: return False
         return d == 0
 
+    def is_lv(self, core):
+        """does the (wrapper-stripped) expression denote an object whose address can be taken in C"""
+        k = core.get('kind')
+        if k in ('DeclRefExpr', 'CXXThisExpr'): return True
+        if k == 'MemberExpr':
+            if core.get('isArrow'): return True
+            return self.is_lv(self.skip(core['inner'][0]))
+        if k == 'UnaryOperator' and core.get('opcode') == '*': return True
+        if k in ('CallExpr', 'CXXMemberCallExpr', 'CXXOperatorCallExpr'):
+            # an lvalue in C only if the callee is translated as returning a pointer, or it is an
+            # element access on an addressable library container
+            if core.get('valueCategory') != 'lvalue': return False
+            try: d, r = self.callee_decl(core)
+            except Unsupported: return False
+            if d is not None and d.get('kind') in ('FunctionDecl', 'CXXMethodDecl', 'CXXConversionDecl'):
+                rt = self.ret_type(d)
+                return bool(rt.ref and (not rt.const or self.big(rt)))
+            nm = r.get('name', '')
+            if nm in ('operator[]', 'at', 'back', 'front', 'operator*', 'operator->', 'value'):
+                if k == 'CXXMemberCallExpr':
+                    me = self.skip(core['inner'][0]); return me.get('isArrow') or self.is_lv(self.skip(me['inner'][0]))
+                if len(core['inner']) > 1: return self.is_lv(self.skip(core['inner'][1]))
+            return False
+        return core.get('valueCategory') == 'lvalue'
+
     def is_lvalue(self, n):
         return n.get('valueCategory') == 'lvalue'
 
@@ -104,7 +129,7 @@ class ExprMixin:
             return self.expr(arg)
         a = self.skip(arg) if self.skip(arg).get('valueCategory') in ('lvalue', 'xvalue') else arg
         core = self.skip(arg)
-        if core.get('valueCategory') == 'lvalue' or (core.get('kind') in ('DeclRefExpr', 'MemberExpr')):
+        if self.is_lv(core):
             return self.addr(self.expr(core))
         # rvalue bound to a reference: materialise a temporary
         t = self.tyq(arg['type'])
@@ -300,6 +325,11 @@ class ExprMixin:
         if d is not None and d.get('kind') == 'VarDecl':
             return self.static_var(d)
         b = self.expr(base)
+        if d is not None and d.get('kind') == 'FieldDecl' and self.tyq(d['type']).ref:
+            # reference member stored as pointer
+            if n.get('isArrow'):
+                return '(*%s->%s)' % (b, name) if b != '(&this_v)' else '(*this_v.%s)' % name
+            return '(*%s.%s)' % (b, name)
         if n.get('isArrow'):
             if bt.kind == 'ptr' and bt.elem.kind == 'opaque':
                 raise Unsupported('field %s of opaque %s at %s' % (name, bt.elem.c, self.where(n)))
@@ -473,7 +503,7 @@ class ExprMixin:
                 if a0.get('kind') == 'StringLiteral':
                     atxt.append(a0['value']); ptxt.append('const char* a%d' % i); suffix[-1] = 'lit'
                 elif self.big(at) or at.kind == 'opaque':
-                    if a0.get('valueCategory') == 'lvalue' or a0.get('kind') in ('DeclRefExpr', 'MemberExpr'):
+                    if self.is_lv(a0):
                         atxt.append(self.addr(self.expr(a0)))
                     else:
                         tn = self.tmp('arg'); self.pre.append('%s %s = %s;' % (at.c, tn, self.expr(a))); atxt.append('&' + tn)
@@ -604,7 +634,7 @@ class ExprMixin:
                 o = self.expr(obj)
                 if o == '(&this_v)':
                     raise Unsupported('non-const method %s called from by-value const method' % fn)
-            elif core.get('valueCategory') == 'lvalue' or core.get('kind') in ('DeclRefExpr', 'MemberExpr', 'CXXThisExpr', 'UnaryOperator'):
+            elif self.is_lv(core):
                 o = self.addr(self.expr(obj))
             else:
                 t = self.tyq(obj['type']); tn = self.tmp('obj')
